@@ -9,7 +9,7 @@ from vk import models as M
 ID = "C19"
 LEVEL = "exploration"
 RULE = (
-    "Hypothesis draws (function, float vector of length 1..400 from five families: dyadic palette with ties, "
+    "Hypothesis draws (function, float vector of length 1..400 (weighted estimators: also 100..3001, seeded dyadic values) from five families: dyadic palette with ties, "
     "general floats over 1e-6..1e6, all-equal, exactly symmetric, one extreme outlier; optional NaNs; weight "
     "vector families equal / positive / one dominant / with zeros; shift, scale, smoother width). Oracles: "
     "independent restatement of each published formula, range, shift/scale metamorphic relations on exactly "
@@ -36,11 +36,21 @@ WEIGHTED = {"weighted_median", "weighted_mad", "weighted_std"}
 
 # ------------------------------------------------------------------ strategies
 @st.composite
-def vectors(draw, max_len=400):
+def vectors(draw, max_len=400, long=False):
     fam = draw(st.sampled_from(["dyadic", "dyadic", "general", "equal", "symmetric", "outlier"]))
     n = draw(st.one_of(st.integers(1, 12), st.integers(1, 60), st.integers(1, max_len)))
     e = draw(st.integers(-20, 20))
     unit = 2.0 ** e
+    if long:
+        # hundreds to a few thousand values, as many even as odd (seeded change C19h: a rounding tolerance that only
+        # fails for even lengths above ~100 with a non-dyadic common weight). The values come from a drawn seed: one
+        # Hypothesis draw per element would exhaust its entropy buffer at these lengths.
+        import random
+
+        n = 2 * draw(st.integers(50, 1500)) + draw(st.integers(0, 1))
+        rnd = random.Random(draw(st.integers(0, 1 << 20)))
+        pal = draw(st.sampled_from([8, 1 << 16]))
+        return {"fam": "long", "unit_exp": e, "x": [rnd.randint(-pal, pal) * unit for _ in range(n)]}
     if fam == "dyadic":
         pal = draw(st.one_of(st.just(8), st.just(1 << 16)))
         xs = [draw(st.integers(-pal, pal)) * unit for _ in range(n)]
@@ -65,10 +75,10 @@ def vectors(draw, max_len=400):
 
 
 @st.composite
-def weights_for(draw, n):
-    fam = draw(st.sampled_from(["equal", "positive", "dominant", "zeros"]))
+def weights_for(draw, n, long=False):
+    fam = draw(st.sampled_from(["equal", "positive", "dominant", "zeros"] + (["equal"] * 4 if long else [])))
     if fam == "equal":
-        w = [draw(st.sampled_from([1.0, 0.5, 0.37]))] * n
+        w = [draw(st.sampled_from([1.0, 0.5, 0.37, 0.1, 0.3, 0.7, 1.0 / 3, 1e-3, 2.3, 1e6 + 0.1]))] * n
     else:
         w = [draw(st.integers(1, 64)) / 64.0 for _ in range(n)]
         if fam == "dominant":
@@ -79,7 +89,9 @@ def weights_for(draw, n):
                 w[i] = 0.0
             if not any(w):
                 w[0] = 1.0
-    return {"fam": fam, "w": w}
+    # a common power-of-two factor on every weight: none of the weighted estimators depends on it
+    p = draw(st.sampled_from([0, 0, 0, -40, -34, 20]))
+    return {"fam": fam, "w": [x * 2.0 ** p for x in w]}
 
 
 @st.composite
@@ -92,11 +104,11 @@ def strategy(draw):
     else:
         fn = draw(st.sampled_from(SMOOTHERS))
     max_len = 120 if fn == "q_n" else 400
-    vec = draw(vectors(max_len=max_len))
+    vec = draw(vectors(max_len=max_len, long=fn in WEIGHTED and draw(st.integers(0, 3)) == 0))
     n = len(vec["x"])
     case = {"kind": kind, "fn": fn, "vec": vec}
     if fn in WEIGHTED:
-        case["wt"] = draw(weights_for(n))
+        case["wt"] = draw(weights_for(n, long=vec["fam"] == "long"))
     if kind != "smooth":
         # NaNs where the estimator promises to ignore them
         if draw(st.integers(0, 4)) == 0:
